@@ -1,6 +1,6 @@
 (* C08 -- Blocks render independently, in order (partial: see MANIFEST level text). *)
 From Rimu Require Import Base Unicode Regex RegexAnalysis RegexParse Str Types Tables Guards State Inline Block
-  Frame FrameBlock FrameInst OptionsLemmas MiscLemmas MoreLemmas Plain TableFacts PlainDoc Lines RegexSem MatchLemmas MatchExact ExactTable Locality.
+  Frame FrameBlock FrameInst OptionsLemmas MiscLemmas MoreLemmas Plain TableFacts PlainDoc Lines RegexSem MatchLemmas MatchExact ExactTable Locality CodeBlock.
 
 (* the block loop emits the rendering of the first block followed by the rendering of the rest,
    from the state and reader the first block left *)
@@ -112,3 +112,19 @@ Theorem C08_list_block_local : forall fuel suf doc n cur rest o rd2 s s',
   lists_render fuel doc n (cur :: rest ++ suf) s = Ok ((o, rd2 ++ suf), s').
 Proof. exact lists_render_suffix. Qed.
 Print Assumptions C08_list_block_local.
+
+(* COMMENTS RENDER TO NOTHING, WHATEVER THEY HOLD: for every list of content lines none of which the comment's closing pattern
+   matches, the block loop renders  /*  content...  */  to the empty string and leaves the session (log included) unchanged *)
+Theorem C08_comment_block_renders_nothing : forall fuel doc n content s, quiet_default s ->
+  (forall l, In l content -> re_search (d_closeRe comment_def) l = None) ->
+  doc_loop fuel doc (S (S n)) (copen :: content ++ [cclose]) s = Ok ([], s).
+Proof. exact comment_block_document. Qed.
+Print Assumptions C08_comment_block_renders_nothing.
+
+(* fenced code to pre/code: see C09_fenced_code_verbatim; restated here for the block table of this property *)
+Theorem C08_fenced_code_block : forall fuel doc n content s,
+  quiet_default s -> Forall nlfree content -> ~ In fence content ->
+  doc_loop (S fuel) doc (S (S n)) (fence :: content ++ [fence]) s =
+  Ok ($"<pre><code>" ++ escape (join [10] content) ++ $"</code></pre>", code_after s).
+Proof. exact code_block_document. Qed.
+Print Assumptions C08_fenced_code_block.
